@@ -16,7 +16,6 @@ import (
 	"fmt"
 	"io"
 	reallog "log"
-	"sync"
 
 	"verif/sim/simfs"
 )
@@ -42,10 +41,7 @@ func (noteWriter) Write(p []byte) (int, error) {
 	return len(p), nil
 }
 
-var (
-	mu  sync.Mutex
-	std = reallog.New(noteWriter{}, "", 0)
-)
+var std = reallog.New(noteWriter{}, "", 0)
 
 func record(kind, text string) {
 	if f := simfs.Current(); f != nil {
